@@ -29,7 +29,7 @@ impl<T: RefCnt> InnerStrategy<T> for RwLock<()> {
         #[cfg(not(arc_swap_verif))]
         let _guard = self.read().expect("We don't panic in here");
         #[cfg(arc_swap_verif)]
-        let _guard = crate::verif::lock::read(self);
+        let _guard = crate::verif::lock::read_expect(self, "We don't panic in here");
         let ptr = storage.load(Ordering::Acquire);
         let ptr = T::from_ptr(ptr as *const T::Base);
         T::inc(&ptr);
@@ -42,7 +42,7 @@ impl<T: RefCnt> InnerStrategy<T> for RwLock<()> {
         #[cfg(not(arc_swap_verif))]
         drop(self.write().expect("We don't panic in here"));
         #[cfg(arc_swap_verif)]
-        drop(crate::verif::lock::write(self));
+        drop(crate::verif::lock::write_expect(self, "We don't panic in here"));
     }
 }
 
